@@ -491,7 +491,11 @@ impl Printable for ObjBody {
 					l.r_brace_token().map(Into::into).as_ref(),
 					Some(trailing_for_comp),
 				);
-				for mem in compspecs {
+				for (i, mem) in compspecs.into_iter().enumerate() {
+					// Every spec on its own line: `for x in y` `if z` must not be glued together
+					if i != 0 {
+						p!(out, nl);
+					}
 					if mem.should_start_with_newline {
 						p!(out, nl);
 					}
